@@ -142,6 +142,8 @@ def render_file(groups, pres_of, units_block=None, include=(), other=None):
             out.append("        'thermochem':")
             for l in render_group(g, pres_of(name)):
                 out.append('            ' + l)
+    if not out:
+        out.append('groups: {}')      # an entirely empty file is not a library file
     return '\n'.join(out) + '\n'
 
 
